@@ -61,6 +61,12 @@ func genObject(r *rand.Rand, depth int, g *crdt.Gen) map[string]interface{} {
 // mutateJSON derives a target from a current value: type changes at a path, array growth /
 // shrink / permutation, key additions and removals.
 func mutateJSON(r *rand.Rand, v interface{}, depth int, g *crdt.Gen) interface{} {
+	if depth == 0 && r.Intn(8) == 0 {
+		// the target differs from the current value ONLY in the order of one array
+		if t, ok := permuteOneArray(r, crdt.Norm(v)); ok {
+			return t
+		}
+	}
 	switch x := v.(type) {
 	case map[string]interface{}:
 		out := map[string]interface{}{}
@@ -107,6 +113,41 @@ func mutateJSON(r *rand.Rand, v interface{}, depth int, g *crdt.Gen) interface{}
 		return genJSON(r, depth+1, g)
 	}
 	return v
+}
+
+// permuteOneArray reorders (rotation or swap of two) one array of >= 2 elements somewhere in v.
+func permuteOneArray(r *rand.Rand, v interface{}) (interface{}, bool) {
+	var arrays [][]interface{}
+	var walk func(x interface{})
+	walk = func(x interface{}) {
+		switch t := x.(type) {
+		case map[string]interface{}:
+			for _, k := range crdt.SortedKeys(t) {
+				walk(t[k])
+			}
+		case []interface{}:
+			if len(t) >= 2 {
+				arrays = append(arrays, t)
+			}
+			for _, c := range t {
+				walk(c)
+			}
+		}
+	}
+	walk(v)
+	if len(arrays) == 0 {
+		return nil, false
+	}
+	a := arrays[r.Intn(len(arrays))] // shares its backing array with v: reordered in place
+	if r.Intn(2) == 0 {
+		first := a[0]
+		copy(a, a[1:])
+		a[len(a)-1] = first
+	} else {
+		i, j := r.Intn(len(a)), r.Intn(len(a))
+		a[i], a[j] = a[j], a[i]
+	}
+	return v, true
 }
 
 func needsEscapedKey(v interface{}) bool {
